@@ -244,3 +244,15 @@ harness(prop="C05", target="geckolib.driver.udp_socket:GeckoUdpSocket.__init__",
         name="threaded_counter_starts_inside_its_invariant")(c16_seq.sync_init_establishes_invariant)
 harness(prop="C05", target="geckolib.driver.async_udp_protocol:GeckoAsyncUdpProtocol.__init__",
         name="async_counter_starts_inside_its_invariant")(c16_seq.async_init_establishes_invariant)
+
+
+# "no change is dropped / exactly one acknowledgement" also needs the dispatch around the partial handler:
+# a STATP is accepted by the partial-update handlers ONLY (a pending refresh request must not swallow it; shared with C04),
+# and the catch-all consumer discards a datagram only after everybody had the chance to take it (shared with C07)
+from contracts import c04_wire, c07_dispatch
+harness(prop="C05", target="geckolib.driver.protocol.statusblock:GeckoPartialStatusBlockProtocolHandler.report_changes",
+        name="partial_update_is_claimed_by_the_partial_handlers_only")(c04_wire.partial_update_message)
+harness(prop="C05", target="geckolib.driver.protocol.unhandled:GeckoUnhandledProtocolHandler.consume", loops=["unhandled_loop"],
+        name="unclaimed_discard_never_takes_a_fresh_datagram")(c07_dispatch.unhandled_discards_only_after_a_full_yield)
+harness(prop="C05", target="geckolib.driver.udp_protocol_handler:GeckoUdpProtocolHandler.consume", loops=["consume_loop"],
+        name="partial_consumer_takes_each_datagram_once")(c07_dispatch.consumer_takes_only_what_it_accepts)
